@@ -242,6 +242,7 @@ def run(ctx: Ctx) -> None:
                            not mism, "; ".join(mism[:4]))
             ctx.extra["tie_pairs"] = len(cases)
         # ---- end to end: FURB110 on `(A) if (B) else c0` is present exactly when the operands are the same
+        sameness_checks_e2e(ctx)
         e2e(ctx, [(k, pairs[index[k]]) for k, *_ in cases if k in index][: ctx.budget(150, 1500)],
             {k: r for k, _, _, r in cases})
     finally:
@@ -250,6 +251,85 @@ def run(ctx: Ctx) -> None:
                         "differing_attribute_never_same": "unsound:", "differing_arity_never_same": "unsound:",
                         "differing_argkind_or_keyword_never_same": "unsound:", "differing_int_literal_never_same": "unsound:"},
                        b.first_error if b else "")
+
+
+SAMENESS_CODES = (108, 110, 124, 132, 136, 142, 148, 188)
+
+
+def sameness_checks_e2e(ctx: Ctx) -> None:
+    """Every check whose justification is that two operands are the same expression: its idioms (C01 rule table) with ONE occurrence
+    of an operand replaced by another operand of the same type.  Such a variant may only be reported if it still is an instance of
+    the idiom under a consistent renaming of the operands (e.g. `y if y < x else x`); otherwise operands that differ were taken for the same."""
+    import tempfile
+    from pathlib import Path
+
+    import refurb.main as rmain
+    from refurb.error import ErrorCode
+    from refurb.settings import Settings
+    from . import c01
+    from .c01_rules import RULES
+    base = [r for r in RULES if r.code in SAMENESS_CODES and r.rhs is None and not r.annot and not r.fs]
+    by_code: dict[int, list] = {}
+    for r in base:
+        by_code.setdefault(r.code, []).append(r)
+    variants = []
+    for r in base:
+        for v in c01.variants(r):
+            if v.note.endswith("[one operand occurrence substituted]"):
+                variants.append((r, v))
+    if not variants:
+        ctx.notes.append("no operand-substituted variants of the sameness-justified idioms")
+        return
+
+    def is_instance(v) -> bool:
+        """v.lhs is some base idiom of the same check with its operands consistently renamed"""
+        try:
+            vt = ast.parse(c01.textwrap.dedent(v.lhs))
+        except SyntaxError:
+            return True
+        for b in by_code[v.code]:
+            try:
+                bt = ast.parse(c01.textwrap.dedent(b.lhs))
+            except SyntaxError:
+                continue
+            old = set(c01.PLACEHOLDERS)
+            c01.PLACEHOLDERS.clear()
+            c01.PLACEHOLDERS.update(b.params)
+            try:
+                env: dict = {}
+                ok = len(bt.body) == len(vt.body) and all(c01._unify(p, t, env, []) for p, t in zip(bt.body, vt.body))
+                # a renaming: distinct operands of the idiom stay distinct
+                names = [ast.dump(x) for x in env.values()]
+                if ok and len(set(names)) == len(names) and all(isinstance(x, ast.Name) for x in env.values()):
+                    return True
+            finally:
+                c01.PLACEHOLDERS.clear()
+                c01.PLACEHOLDERS.update(old)
+        return False
+    lines = ["from typing import Any", "import os, io, re, math, hashlib, shlex, string", "from pathlib import Path"]
+    spans = {}
+    for i, (_, v) in enumerate(variants):
+        prog = (v.setup or "") + c01.lint_program(v, i)
+        start = sum(x.count("\n") + 1 for x in lines) + 1
+        lines.append(prog.rstrip("\n"))
+        spans[i] = (start, start + prog.count("\n"))
+    with tempfile.TemporaryDirectory(prefix="c06s-") as td:
+        f = Path(td) / "variants.py"
+        f.write_text("\n".join(lines) + "\n")
+        out = rmain.run_refurb(Settings(files=[str(f)], quiet=True, disable_all=True, enable={ErrorCode(c) for c in SAMENESS_CODES}))
+    strs = [e for e in out if isinstance(e, str)]
+    if strs:
+        ctx.notes.append("sameness variants do not build: " + strs[0][:200])
+        return
+    for i, (r, v) in enumerate(variants):
+        a, z = spans[i]
+        hit = [e for e in out if a <= e.line <= z and e.code == v.code]
+        inst = is_instance(v)
+        ctx.case(("sameness", v.code, v.lhs), nontrivial=True, sample={"check": f"FURB{v.code}", "variant": v.lhs, "reported": bool(hit), "still_the_idiom": inst} if i % 40 == 0 else None)
+        ctx.count(f"sameness-variant:{'reported' if hit else 'silent'}:{'idiom' if inst else 'not-idiom'}")
+        if hit and not inst:
+            ctx.report(f"e2e:sameness:FURB{v.code}", f"FURB{v.code} reports `{v.lhs}` (from `{r.lhs}` with one operand occurrence replaced): operands that differ were taken for the same: {hit[0].msg}",
+                       {"source": v.lhs, "idiom": r.lhs, "message": hit[0].msg, "cmd": f"refurb --disable-all --enable FURB{v.code}"})
 
 
 def e2e(ctx: Ctx, sel, real_by_key) -> None:
